@@ -1,17 +1,16 @@
 #!/bin/bash
-# runs every seeded change (and every own mutant with a known target) against the check of its property; prints one line each
+# runs every seeded change (and every own mutant with a known target) against the check of its property; one line each.
+# Uses tools/seedcheck.sh (scratch worktree + source overlay: /repo is not touched), ${SWEEP_JOBS:-4} at a time.
+# seeded dirs: C07-1, C07-2 (round 1), C07-3, C07-4 (round 2) ...; property = text before the first '-'
 cd /verif
-# seeded dirs: C07-1 (round 1), C07-r2-1 (round 2); property = text before the first '-'
-for d in seeded/*/; do
-  id=$(basename $d); prop=${id%%-*}
-  out=$(tools/seedcheck.sh /verif/$d/patch.diff $prop 2>&1)
-  if echo "$out" | grep -q "rc=1"; then echo "$id caught by $prop"; else echo "$id MISSED by $prop: $(echo "$out" | head -2 | tr '\n' ' ' | cut -c1-200)"; fi
-done
-# own regression mutants: <file> <check>
-while read f id; do
-  out=$(tools/seedcheck.sh /verif/mutants/$f $id 2>&1)
-  if echo "$out" | grep -q "rc=1"; then echo "mutant $f caught by $id"; else echo "mutant $f MISSED by $id: $(echo "$out" | head -2 | tr '\n' ' ' | cut -c1-200)"; fi
-done <<'LIST'
+one() { # <label> <patch> <check>
+  out=$(tools/seedcheck.sh "$2" "$3" 2>&1)
+  if echo "$out" | grep -q "rc=1"; then echo "$1 caught by $3"; else echo "$1 MISSED by $3: $(echo "$out" | grep -v REDUCTION-OFF | head -2 | tr '\n' ' ' | cut -c1-200)"; fi
+}
+export -f one
+{
+  for d in seeded/*/; do id=$(basename $d); echo "$id /verif/$d/patch.diff ${id%%-*}"; done
+  while read f id; do [ -n "$f" ] && echo "mutant:$f /verif/mutants/$f $id"; done <<'LIST'
 c15_shared_scratch_slice.diff C15
 c01_accept_nil_zero_entry.diff C01
 c01_duplicate_key_newest_rejected.diff C01
@@ -29,3 +28,4 @@ c09_ingresspods_leaks_intermediate_join.diff C09
 c20_typed_monitor_passes_nil_for_foreign.diff C20
 c19_rc_no_template_fallback.diff C19
 LIST
+} | xargs -P ${SWEEP_JOBS:-4} -L 1 bash -c 'one "$0" "$1" "$2"' | sort
